@@ -68,6 +68,45 @@ def oracle_tree(c):
     return None
 
 
+def gal_tree(parents):
+    """the Gallina tree of a network given each device's true parent (ring positions, -1 = none)"""
+    kids = {}
+    for i, p in enumerate(parents):
+        kids.setdefault(p, []).append(i)
+    def go(i):
+        return "T [" + "; ".join(go(k) for k in kids.get(i, [])) + "]"
+    return go(kids[-1][0])
+
+
+def tree_stage(ctx, trees):
+    """c17_tree_parents on the simulated trees: the theorem's premise (open ports = children + 1, ring
+    order = preorder) is what the simulated devices report, and its conclusion (the true parents,
+    computed by Coq from the tree) is what the implementation recorded"""
+    ok = [c for c in trees if c["res"] == "Ok" and c["n"] >= 1][:400]
+    if not ok:
+        return 0
+    items = []
+    for c in ok:
+        n = c["n"]
+        rows = [c["out"][1 + 6 * i: 7 + 6 * i] for i in range(n)]
+        exp = [sum(d["act"]) for d in c["devs"]] + [-5] + [r[0] for r in rows]
+        items.append("(%s, %s%%Z)" % (gal_tree([d["true_parent"] for d in c["devs"]]), vlib.gz(exp)))
+    nsh = 4
+    texts = []
+    for k in range(nsh):
+        texts.append("\n".join(["From EC Require Import Base.Prelude Dc.Tree Dc.TreeRefine Wire.Check.", "Local Open Scope N_scope.",
+                                "Definition cs : list (tree * list Z) := [" + ";\n".join(items[k::nsh]) + "].",
+                                "Eval vm_compute in (0, map fst (mismatches tree_obs cs 0))."]) + "\n")
+    for k, (rc, out) in enumerate(vlib.coq_eval_shards(ctx.pid + "tree", texts)):
+        v = vlib.parse_evals(out) if rc == 0 else None
+        if rc != 0 or not v or not v[0].endswith(", [])"):
+            idxs = [int(x) for x in re.findall(r"\d+", (v[0][3:] if v else "").replace("%N", ""))]
+            first = ok[k::nsh][idxs[0]] if idxs and idxs[0] < len(ok[k::nsh]) else None
+            ctx.violation("the parents recorded for a simulated tree are not the true parents of theorem c17_tree_parents (or the devices do not report children + 1 open ports in ring order)",
+                          {"broken": "correspondence", "model": "coq/Dc/TreeRefine.v tree_obs", "case": first, "log": out[-600:] if rc != 0 else None}, no_input=(first is None))
+    return len(ok)
+
+
 def run(ctx, replay=None):
     quick = ctx.tier == "quick"
     vlib.proof_stage(ctx, "Props/C17.v")
@@ -136,6 +175,7 @@ def run(ctx, replay=None):
             dis += max(1, len(idxs))
             first = cs[idxs[0]] if idxs and idxs[0] < len(cs) else None
             ctx.violation("model and implementation disagree on %d topology case(s) (first differing one in replay)" % len(idxs), {"broken": "correspondence", "case": first}, no_input=True)
+    stats["trees_against_theorem"] = tree_stage(ctx, [c for c in cases if c["kind"] == "tree"])
     ctx.coverage.update(evaluations=len(cases), distinct_nontrivial=len({json.dumps(c["devs"]) for c in cases}),
                         rule="assign: 1..24 devices with arbitrary active flags and port times (also impossible ones: no open port, unordered times, near the 32-bit wrap), chain-like and port-0-first reports; tree: random trees of 1..24 simulated devices (1..4 open ports, link delays 10..2000 ns, equal or random per-device forwarding delays, DC/non-DC mixes, 32- and 64-bit clocks, local clocks near the 32-bit wrap) through the real configure_dc",
                         outcomes=outcomes, disagreements=dis, **stats, samples=[{"n": cases[-1].get("n"), "chain": cases[-1].get("chain")}])
